@@ -974,6 +974,11 @@ def cached_script_view(
     if req.method != "GET":
         return HttpResponseNotAllowed(["GET"])
 
+    # NOTE: `script_type` comes straight from the URL. Anything other than "js" / "css" is unknown,
+    # even if it happens to form the cache key of another entry (e.g. `MyComp_ab01f3.js:0ab2c3`).
+    if script_type not in _CONTENT_TYPES:
+        return HttpResponseNotFound()
+
     comp_cls = comp_hash_mapping.get(comp_cls_hash)
     if comp_cls is None:
         return HttpResponseNotFound()
